@@ -43,6 +43,7 @@ type RandomSpec struct {
 	Policy    string  `json:"policy"` // uniform pct window
 	FaultProb float64 `json:"fault_prob"`
 	CancelPr  float64 `json:"cancel_prob"`
+	PCancelPr float64 `json:"pcancel_prob"`
 	Depth     int     `json:"depth"`
 }
 
@@ -118,6 +119,7 @@ type opRun struct {
 	res     string
 	n       int64
 	err     error
+	callerNil bool // the call returned a nil error to its caller
 	inPos   int // position in the parsed stream (-1 = absent)
 	touched bool // the writer itself called the transport during this op (sync mode)
 }
@@ -160,6 +162,8 @@ type chanWorld struct {
 	failKeys   map[string]bool
 	ctxErrSeen map[string]bool
 	fatalFault string
+	parentCancel context.CancelFunc
+	parentDone   bool
 	excOn      map[string]error
 	lowErr     map[string]error
 	exceptions []error
@@ -332,6 +336,7 @@ func (w *chanWorld) writerMain(ws WriterSpec) func() {
 				panic("unknown op kind " + op.spec.Kind)
 			}
 			op.n, op.err = n, err
+			op.callerNil = err == nil
 			op.res = classify(n, len(op.payload), err)
 			if op.spec.Kind == "M" && err == nil {
 				if ex := w.lowErr[ws.Name]; ex != nil {
@@ -471,7 +476,7 @@ func (w *chanWorld) oracleStep(noFault bool) {
 				if op.inPos >= 0 && len(op.payload) > 0 {
 					w.fail("C11", "bytes-after-close/"+op.spec.Kind, fmt.Sprintf("%s.%d (%s) began after Close returned and its bytes reached the transport", op.w, op.idx, op.spec.Kind))
 				}
-				if op.ret >= 0 && op.err == nil {
+				if op.ret >= 0 && op.callerNil {
 					w.fail("C11", "nil-error/"+op.spec.Kind+"/"+w.winnerArg(), fmt.Sprintf("%s.%d (%s) began after Close(%s) returned and reported (%d, nil)", op.w, op.idx, op.spec.Kind, w.winnerArg(), op.n))
 				}
 			}
@@ -493,6 +498,9 @@ func (w *chanWorld) oracleStep(noFault bool) {
 	}
 	if w.serveRet >= 0 && w.actives != 1 {
 		w.fail("C05", "serve-before-active", "serveChannel returned before active was delivered")
+	}
+	if w.s.Loc("R") == "done" && w.ch.IsActive() {
+		w.fail("C05", "readloop-exit-without-close", "the read loop has terminated but the channel is still active (never closed)")
 	}
 	if w.closeRetStep >= 0 && w.ch.IsActive() {
 		w.fail("C05", "active-after-close", "IsActive() is true after a Close call returned")
@@ -556,7 +564,9 @@ func runChanCase(c *ChanCase) *ChanResult {
 	} else {
 		factory = netty.NewChannel()
 	}
-	w.ch = factory(1, context.Background(), pl, w.tr, w.ex)
+	parentCtx, parentCancel := context.WithCancel(context.Background())
+	w.parentCancel = parentCancel
+	w.ch = factory(1, parentCtx, pl, w.tr, w.ex)
 	if c.Serve != "full" {
 		// the channel is already active: serve it un-gated until the read loop
 		// is parked in Transport.Read
@@ -629,10 +639,12 @@ func runChanCase(c *ChanCase) *ChanResult {
 			e := c.Schedule[schedIdx]
 			schedIdx++
 			if e[0] == "cancel" {
-				if _, ok := w.cancels[e[1]]; ok || true {
-					kind, proc = "cancel", e[1]
-					break
-				}
+				kind, proc = "cancel", e[1]
+				break
+			}
+			if e[0] == "pcancel" {
+				kind, proc = "pcancel", ""
+				break
 			}
 			if contains(atGate, e[1]) {
 				kind, proc = e[0], e[1]
@@ -658,7 +670,15 @@ func runChanCase(c *ChanCase) *ChanResult {
 			}
 		}
 		ev := Event{P: proc}
-		if kind == "cancel" {
+		if kind == "pcancel" {
+			ev.A = "env.pcancel"
+			w.parentDone = true
+			w.parentCancel()
+			if err := s.Settle(); err != nil {
+				res.HarnessErr = err.Error()
+				break
+			}
+		} else if kind == "cancel" {
 			ev.A = "env.cancel"
 			w.ctxErrSeen[proc] = true
 			if cancel := w.cancels[proc]; cancel != nil {
@@ -930,6 +950,9 @@ func (w *chanWorld) pickRandom(rnd *rand.Rand, atGate []string, prio map[string]
 			return "cancel", names[rnd.Intn(len(names))]
 		}
 	}
+	if r.PCancelPr > 0 && !w.parentDone && w.ch.Context().Err() == nil && rnd.Float64() < r.PCancelPr {
+		return "pcancel", ""
+	}
 	var proc string
 	switch r.Policy {
 	case "pct":
@@ -949,6 +972,42 @@ func (w *chanWorld) pickRandom(rnd *rand.Rand, atGate []string, prio map[string]
 			}
 		}
 		proc = best
+	case "stall", "drain":
+		// stall: a sender standing before a transport call is held back while a closer is still
+		// waiting (so that a bounded-wait Close gives up); drain: writers first, then closers,
+		// senders last (so that Close finds a backlog)
+		var writers, closers, senders []string
+		for _, n := range atGate {
+			if _, ok := w.ops[n]; ok {
+				writers = append(writers, n)
+			} else if isCloser(w.c, n) {
+				closers = append(closers, n)
+			} else {
+				senders = append(senders, n)
+			}
+		}
+		pick := func(xs []string) string { return xs[rnd.Intn(len(xs))] }
+		switch {
+		case len(writers) > 0 && rnd.Intn(10) != 0:
+			proc = pick(writers)
+		case len(closers) > 0 && (r.Policy == "stall" || rnd.Intn(3) != 0):
+			proc = pick(closers)
+		case len(senders) > 0:
+			proc = pick(senders)
+		default:
+			proc = pick(atGate)
+		}
+		if r.Policy == "stall" && w.winnerPolls <= 10 && len(closers) > 0 && w.s.Loc(closers[0]) == "c.poll" {
+			// let the closer run out of patience
+			return "step", closers[0]
+		}
+		if r.Policy == "drain" {
+			// allow a sender one step now and then so that it takes a first packet and stalls
+			if len(senders) > 0 && rnd.Intn(6) == 0 {
+				proc = pick(senders)
+			}
+		}
+		return "step", proc
 	case "window":
 		// bias towards leaving senders/closers inside their windows
 		var others []string
